@@ -120,9 +120,14 @@ CLAIMED = {
          'fails (only the argument-less call is random), public key = d*G, SEC standard forms, and parsing the compressed, uncompressed '
          'and x-only encodings of d*G returns the identical point (curve facts proved); off-curve x rejected. Tier T: PrivateKey._from_wif and to_wif are re-translated on every run '
          '(base58check and SigningKey.from_string as parameters, the network prefix a parameter) and proved equal to the model, so the WIF round trip and the rejections are about the '
-         'translated code; key construction from secrets and the SEC / x-only public-key parser (python-ecdsa, sympy) are a hand model tied to the code by the correspondence run.',
+         'translated code. PublicKey.__init__ called with a hex string (strip, 0x prefix, bytes.fromhex, int(.,16) on the real string; sympy sqrt_mod and '
+         'VerifyingKey.from_string as parameters), to_hex, to_x_only_hex, is_y_even and _to_hash160 are re-translated as well: the translated constructor accepts b.hex() exactly '
+         'when the model accepts b, with the same point, the renderings are the SEC standard forms, so the SEC round trip (translated to_hex parsed back by the translated '
+         'constructor gives the identical point; x-only gives the even-y representative) and the off-curve rejection are about the translated code; the string glue '
+         '(case, 0x, whitespace, signs, underscores, odd lengths) is run against the implementation. Key construction from secrets (python-ecdsa) is a hand model tied to the '
+         'code by the correspondence run.',
          NOTE_COMMON + 'base58check, python-ecdsa constructors and sympy sqrt_mod modelled by their specifications.',
-         'Lean 4 proof (WIF over translated source; key and point parsing hand model) + differential correspondence', '6/C09'),
+         'Lean 4 proof (WIF and SEC public-key parsing / rendering over translated source; key construction hand model) + differential correspondence', '6/C09'),
  'C10': ('Kernel-checked theorems: address string = Base58Check(version || hash) with the generated per-network version bytes; an address object '
          'accepts a string only if it is Base58Check-valid with that version byte and a 20-byte payload and then holds exactly that payload; '
          'round trip for every 20-byte hash (26..35-character window as hypothesis); pubkey addresses commit to HASH160 of the SEC encoding. '
